@@ -1,5 +1,172 @@
-import OrixModel.Codec.H5
-import OrixGen.IoTables
-/- C13 — placeholder while the model is validated against the implementation -/
+import OrixProofs.Lemmas.CodecH5Gen
+set_option linter.unusedVariables false
+/-
+C13 — orix HDF5 save/load is lossless.
+
+These are theorems about the *format model* (`OrixModel/Codec/H5.lean`):
+  `write = store ∘ dict2hdf5group ∘ crystalmap2dict`,  `read = CrystalMap.__init__ ∘ dict2crystalmap ∘ hdf5group2dict`
+over records with opaque integer payloads (bit patterns with dtype tags; strings as code points written as
+UTF-8 into `S<len+1>` datasets and read back as latin-1; group links presented in alphabetical order).
+Rotations travel as their three Euler-angle arrays, verbatim; that `from_euler ∘ to_euler` is the identity on
+rotations is C01's theorem, not restated here.  The link to orix is the correspondence check
+(harness/props/c13.py): raw HDF5 tree vs `write m`, loaded map vs `read (write m)`, second cycle; key names,
+markers and symmetry tables are regenerated from the source on every run (`OrixGen.IoTables`) and tied to the
+model by the obligations in `Lemmas/CodecH5Gen.lean`.
+
+Purity of the writer ("saving does not modify the map") has no content in a functional model — `write` is a
+function of the record; it is checked on the implementation by the harness (state before = state after).
+-/
 namespace Orix.C13
+open Orix.Codec Orix.Codec.H5 Orix.Gen.Io
+
+/-
+Full statement: for every map, `read (write m) = some m`.  It does not hold for the code as it is (proved
+counter-examples below).  Proved: the statement for all records satisfying the explicit decidable predicate
+`H5WF` (every conjunct is a candidate finding and is run against the real code at an excluded point).
+-/
+
+/-- **Round trip**: for every well-formed record — any number of points ≥ 2, any mask, any coordinates (or none),
+any number of rotations per point, any properties of any dtype and shape, any phases with or without space/point
+group, up to ten atoms — the writer succeeds and the reader returns the record; the properties come back as the
+same set of (name, array) pairs (HDF5 presents them in alphabetical order). -/
+theorem read_write_partial (ni : PhaseRec) (e : Derived) (m : MapRec) (hwf : H5WF genTables ni m)
+    (hid : arrOK e.idArr) :
+    ∃ t ps, write e m = some t ∧ ps.Perm m.props ∧ read genTables ni t = some { m with props := ps } :=
+  read_write_main genTables ni e m hwf hid
+
+/-- **Second cycle**: saving and loading the loaded map gives the same record again. -/
+theorem second_cycle (ni : PhaseRec) (e : Derived) (m : MapRec) (hwf : H5WF genTables ni m)
+    (hid : arrOK e.idArr) :
+    ∃ t m₁ t₁ ps, write e m = some t ∧ read genTables ni t = some m₁ ∧ write e m₁ = some t₁ ∧
+      ps.Perm m.props ∧ read genTables ni t₁ = some { m with props := ps } := by
+  obtain ⟨t, ps, hw, hp, hr⟩ := read_write_main genTables ni e m hwf hid
+  obtain ⟨t₁, ps₁, hw₁, hp₁, hr₁⟩ :=
+    read_write_main genTables ni e { m with props := ps } (H5WF_perm genTables ni m ps hp hwf) hid
+  exact ⟨t, _, t₁, ps₁, hw, hr, hw₁, hp₁.trans hp, hr₁⟩
+
+/-- **The generic codec** (`dict2hdf5group` → file → `hdf5group2dict`) on *any* nested dict without `None`:
+it sorts every level by key and applies the two lossy leaf rules (`normVal`: an array whose first axis has
+length 1 loses that axis, strings are re-decoded), nothing else. -/
+theorem generic_codec (t : PyTree) (h : clean t = true) :
+    ∃ f, writeTree t = some f ∧ readTree (storeTree f) = roundTree t :=
+  codec_tree t h
+
+/-- the two lossy rules are harmless exactly on these leaves -/
+theorem leaf_rules (a : Arr) (s : Str) :
+    (a.shape.head? ≠ some 1 → normVal (.arr a) = .arr a) ∧
+    ((∀ c ∈ s, 0 < c ∧ c < 128) → normVal (.str s) = .str s) :=
+  ⟨arr_stable a, str_stable s⟩
+
+/-- numbered children (`atoms/0 … atoms/9`) are stored in numeric order; `atoms/10` sorts before `atoms/2` -/
+theorem numbered_children_order :
+    (∀ j < 10, ∀ i ≤ j, Key.le (.n (i : Nat)) (.n (j : Nat)) = true) ∧
+    Key.le (.n 10) (.n 2) = true ∧ Key.le (.n 2) (.n 10) = false :=
+  ⟨keyLe_small, keyLe_ten_two⟩
+
+/-- which space groups survive: `Phase(space_group = n, point_group = <derived name>)` reproduces the pair for
+every n except 3 … 9 (kernel-decided on the generated tables) -/
+theorem space_groups_surviving :
+    ((List.range' 1 230).filter fun n =>
+      !(mkPhase genTables (some n) (sgPG genTables n) == some (some n, sgPG genTables n))) = [3, 4, 5, 6, 7, 8, 9] :=
+  bad_space_groups
+
+/-! ### proved counter-examples: every conjunct of `H5WF` is needed -/
+
+def f64 : Nat := 1
+def i64 : Nat := 4
+def b8 : Nat := 12
+
+/-- `Phase(name="not_indexed", color="white")` with a default structure (payloads are bit patterns) -/
+def niPhase : PhaseRec :=
+  { id := -1, name := S "not_indexed", sg := none, pg := none, color := S "w",
+    abcABG := ⟨f64, [6], [1, 1, 1, 90, 90, 90]⟩, baserot := ⟨f64, [3, 3], [1, 0, 0, 0, 1, 0, 0, 0, 1]⟩, atoms := [] }
+
+def phaseA : PhaseRec :=
+  { id := 0, name := S "a", sg := some 225, pg := some (S "m-3m"), color := S "tab:blue",
+    abcABG := ⟨f64, [6], [4, 4, 4, 90, 90, 90]⟩, baserot := ⟨f64, [3, 3], [1, 0, 0, 0, 1, 0, 0, 0, 1]⟩, atoms := [] }
+
+/-- a map of `n` points along x, all of phase `p` -/
+def lineMap (n : Nat) (p : PhaseRec) (props : List PropRec) : MapRec :=
+  { y := none, x := some ⟨i64, [n], (List.range n).map (fun i => (i : Int))⟩,
+    inData := ⟨b8, [n], List.replicate n 1⟩, phaseId := ⟨i64, [n], List.replicate n p.id⟩,
+    phi1 := ⟨f64, [n], (List.range n).map (fun i => (100 + i : Int))⟩,
+    phi := ⟨f64, [n], (List.range n).map (fun i => (200 + i : Int))⟩,
+    phi2 := ⟨f64, [n], (List.range n).map (fun i => (300 + i : Int))⟩,
+    props := props, scanUnit := S "um", phases := [p] }
+
+def derived (n : Nat) : Derived :=
+  { ny := 1, nx := n, yStep := (i64, 0), xStep := (i64, 1), rpp := 1,
+    idArr := ⟨i64, [n], (List.range n).map (fun i => (i : Int))⟩, intDt := i64 }
+
+def cycle (n : Nat) (m : MapRec) : Option MapRec := (write (derived n) m).bind (read genTables niPhase)
+
+/-- non-vacuity: an ordinary three-point map with one property comes back unchanged … -/
+example : cycle 3 (lineMap 3 phaseA [⟨S "iq", ⟨f64, [3], [7, 8, 9]⟩⟩])
+    = some (lineMap 3 phaseA [⟨S "iq", ⟨f64, [3], [7, 8, 9]⟩⟩]) := by decide +kernel
+
+/-- … and it satisfies the hypotheses of the theorem -/
+example : H5WF genTables niPhase (lineMap 3 phaseA [⟨S "iq", ⟨f64, [3], [7, 8, 9]⟩⟩]) where
+  unit := by decide
+  y := by intro a h; cases h
+  x := by intro a h; cases h; decide
+  inData := by decide
+  phaseId := by decide
+  phi1 := by decide
+  phi := by decide
+  phi2 := by decide
+  props_arr := by decide
+  props_names := by decide +kernel
+  props_nodup := by decide
+  phases := by
+    intro p hp
+    have : p = phaseA := by simpa [lineMap] using hp
+    subst this
+    exact { name := by decide, color := by decide, abc := by decide, baserot := by decide,
+            atoms := (by intro a ha; cases ha), natoms := (by decide),
+            pgName := (by intro g hg; cases hg; decide +kernel), sym := (by decide +kernel) }
+  phases_sorted := by decide
+  phases_consistent := by decide +kernel
+
+/-- **Counter-example (finding)**: a single-point map cannot be loaded — every length-1 dataset comes back as a
+scalar. -/
+theorem single_point_counterexample : cycle 1 (lineMap 1 phaseA []) = none := by decide +kernel
+
+/-- **Counter-example (finding)**: a property called `phi1` silently replaces the first Euler angles. -/
+theorem reserved_name_counterexample :
+    (cycle 3 (lineMap 3 phaseA [⟨S "phi1", ⟨f64, [3], [7, 8, 9]⟩⟩])).map (fun m => (m.phi1.vals, m.props))
+      = some ([7, 8, 9], []) := by decide +kernel
+
+/-- **Counter-example (finding)**: a phase name with a non-ASCII character is written as UTF-8 and decoded as
+latin-1: "é" (U+00E9) comes back as "Ã©". -/
+theorem non_ascii_counterexample :
+    (cycle 3 (lineMap 3 { phaseA with name := [233] } [])).map (fun m => m.phases.map (·.name))
+      = some [[195, 169]] := by decide +kernel
+
+def atomI (i : Nat) : AtomRec :=
+  { element := S "Al", label := S "", occDt := f64, occ := 1, xyz := ⟨f64, [3], [i, 0, 0]⟩,
+    u := ⟨f64, [3, 3], [0, 0, 0, 0, 0, 0, 0, 0, 0]⟩ }
+
+/-- **Counter-example (finding)**: with eleven atoms the atoms come back in the order 0, 1, 10, 2, 3, … -/
+theorem eleven_atoms_counterexample :
+    (cycle 3 (lineMap 3 { phaseA with atoms := (List.range 11).map atomI } [])).map
+        (fun m => m.phases.map fun p => p.atoms.map fun a => a.xyz.vals.head?)
+      = some [[some 0, some 1, some 10, some 2, some 3, some 4, some 5, some 6, some 7, some 8, some 9]] := by
+  decide +kernel
+
+/-- **Counter-example (finding)**: space group 5 (C2, point group "2"): the stored name "2" is an alias of 2/m,
+so the phase comes back with point group 2/m and without space group. -/
+theorem space_group_5_counterexample :
+    (cycle 3 (lineMap 3 { phaseA with sg := some 5, pg := some (S "2") } [])).map
+        (fun m => m.phases.map fun p => (p.sg, p.pg))
+      = some [(none, some (S "2/m"))] := by decide +kernel
+
+/-- **Counter-example (finding)**: space group 6 (Pm, point group "m"): loading raises. -/
+theorem space_group_6_counterexample :
+    cycle 3 (lineMap 3 { phaseA with sg := some 6, pg := some (S "m") } []) = none := by decide +kernel
+
+/-- **Counter-example**: a phase of the list without points is dropped by `CrystalMap.__init__`. -/
+theorem unused_phase_counterexample :
+    (cycle 3 { lineMap 3 phaseA [] with phases := [phaseA, { phaseA with id := 1, name := S "b" }] }).map
+        (fun m => m.phases.map (·.name)) = some [S "a"] := by decide +kernel
+
 end Orix.C13
